@@ -10,11 +10,31 @@
 
 package opcode
 
+// patset(s): the s-th pattern set of the verifier's corpus (shapes of bounded
+// size, every byte of every pattern and mask arbitrary; malformed shapes are
+// included). patset_invalid(): some pattern is malformed (no bytes, lengths of
+// bytes and mask differ, last mask byte zero). patset_ambiguous(): two
+// patterns agree on their common masked bits over the shorter length, which
+// is equivalent to "some byte string matches both" (lemma discharged by the
+// verifier for every pair of lengths).
+//
+//@ func NewMatcher
+//@   enum s in PATSETS
+//@   input:opcs patset(s)
+//@   ensures[error-iff-malformed-or-ambiguous] (result1 != nil) == (patset_invalid() || patset_ambiguous())
+//@   ensures[no-matcher-on-error] result1 != nil ==> isnil(result0)
+
 // Match returns the opcoder of the unique pattern matching bs, or false iff
-// no pattern matches. (Uniqueness is the invariant NewMatcher establishes.)
-// Callers verified against this contract fork over the witness k.
+// no pattern matches (uniqueness is what NewMatcher establishes). matcher_of(s)
+// is the matcher the real NewMatcher builds from pattern set s.
+// Callers verified against this contract (riscv.Parser.Parse, property C02)
+// use it in the form: requires the pattern set to be unambiguous; the result
+// is the unique matching pattern, chosen by forking over the witness.
 //
 //@ func (*Matcher).Match
-//@   requires unambiguous(patterns(d))
-//@   ensures result1 == (exists k int :: 0 <= k && k < len(patterns(d)) && matches(patterns(d)[k].opcode, bs))
-//@   ensures result1 ==> (exists k int :: 0 <= k && k < len(patterns(d)) && result0 == patterns(d)[k].opcoder && matches(patterns(d)[k].opcode, bs))
+//@   enum s in PATSETS, n in BSLENS
+//@   input:d matcher_of(s)
+//@   input:bs shape(n)
+//@   ensures[found-iff-some-pattern-matches] result1 == pat_any_matches(bs)
+//@   ensures[result-is-a-matching-pattern] result1 ==> pat_result_matches(result0, bs)
+//@   ensures[reads-only] heap_unchanged()
